@@ -728,7 +728,7 @@ func c08Corpus() []geom.Geometry {
 
 func c08Main(r *engine.Run) {
 	r.Level = "fault_enumeration"
-	r.Rule = "corpus of valid encodings (WKB little/big endian, TWKB with header subsets, WKT, GeoJSON, Feature, FeatureCollection of ~70 geometries covering 7 types × 4 coordinate types × empty/1/2 members/nested) × fault operators: every truncation, every single-byte substitution (all 256 values at order/type/count/header positions, boundary values elsewhere), every 4-byte count := {0,1,2^31-1,2^31,2^32-1,...} in both byte orders, varints 2^k / 2^64-1 / over-long spliced at every position, every token deleted / duplicated / replaced by each vocabulary token, every prefix; WKT templates with every control point scaled by every value of {1,3e-200,3e200,1e308} (magnitude mixtures); GeometryCollections nested 16 / 256 / 2000 (thorough 7000) deep in every format, and WKB levels each claiming remaining/5 members; plus all byte strings of length ≤ 2 and all strings of length 3..L over {00,01,02,07,10,ff}. Each case runs in a sacrificial process (RLIMIT_AS 4 GiB) through every entry point of its format; oracle: no panic, no process death, TotalAlloc ≤ 1 MiB + 512·len, returned geometries valid and re-encodable. non-trivial = distinct mutated inputs that some entry point still accepts; outcomes = distinct (format, per-entry-point outcome) tuples"
+	r.Rule = "corpus of valid encodings (WKB little/big endian, TWKB with header subsets, WKT, GeoJSON, Feature, FeatureCollection of ~70 geometries covering 7 types × 4 coordinate types × empty/1/2 members/nested) × fault operators: every truncation, every single-byte substitution (all 256 values at order/type/count/header positions, boundary values elsewhere), every 4-byte count := {0,1,2^31-1,2^31,2^32-1,...} in both byte orders, varints 2^k / 2^64-1 / over-long spliced at every position, every token deleted / duplicated / replaced by each vocabulary token, every prefix; WKT templates with every control point scaled by every value of {1,3e-200,3e200,1e308} (magnitude mixtures); GeometryCollections nested 16 / 256 / 2000 (thorough 7000) deep in every format, and WKB / TWKB levels each claiming as many members as the remaining input could hold; plus all byte strings of length ≤ 2 and all strings of length 3..L over {00,01,02,07,10,ff}. Each case runs in a sacrificial process (RLIMIT_AS 4 GiB) through every entry point of its format; oracle: no panic, no process death, TotalAlloc ≤ 1 MiB + 512·len, returned geometries valid and re-encodable. non-trivial = distinct mutated inputs that some entry point still accepts; outcomes = distinct (format, per-entry-point outcome) tuples"
 	corpus := c08Corpus()
 	r.States.Add(int64(len(corpus)))
 	var cases []faultCase
@@ -938,6 +938,20 @@ func nestingFaults(thorough bool, out *[]faultCase) int {
 			amp = append(amp, le32(c)...)
 		}
 		add(fmtWKB, amp, fmt.Sprintf("WKB nesting depth %d, every level claiming remaining/5 members", d))
+		// TWKB count amplification: level k claims as many members as bytes remain (count as a 1..3 byte varint)
+		{
+			var body []byte
+			// build from the innermost level outwards so that each count can be the exact remaining length
+			for i := 0; i < d; i++ {
+				rem := uint64(len(body))
+				if rem == 0 {
+					rem = 1
+				}
+				level := append([]byte{0x07, 0x00}, uvarintBytes(rem)...)
+				body = append(level, body...)
+			}
+			add(fmtTWKB, body, fmt.Sprintf("TWKB nesting depth %d, every level claiming as many members as bytes remain", d))
+		}
 	}
 	return n
 }
